@@ -27,4 +27,16 @@ def units(tier):
           [PE + "_get_chunks", PE + "_process_chunk", PE + "_chain_from_iterable_of_lists"],
           "len(xs)<=6, 1<=c<=7"),
     ]
+    S = "lokyverif.harness.c03_steps"
+    big = tier == "thorough"
+    u += [
+        H("C03", S, "check_submit_step", 180 if not big else 600, [PE + "ProcessPoolExecutor.submit"],
+          "queue counter q<=4, arbitrary subset of ids pending, broken/shutdown/interpreter-exit flags symbolic"),
+        H("C03", S, "check_dispatch_step_5" if big else "check_dispatch_step_3", 900 if big else 180,
+          [PE + "_ExecutorManagerThread.add_call_item_to_queue"],
+          "<=5 (thorough) / <=3 (quick) queued ids each pending-or-cancelled, 0..4/0..3 free slots, 0..2/0..1 already running"),
+        H("C03", S, "check_result_step_4" if big else "check_result_step_3", 1200 if big else 240,
+          [PE + "_ExecutorManagerThread.process_result_item"],
+          "ids 0..3 / 0..2, arbitrary pending subset, arbitrary dispatched subset of it, result id in or out of the map, value or exception"),
+    ]
     return u
